@@ -145,6 +145,16 @@ def same_result(em_ref, em_other, what):
     return None
 
 
+def safe_lit(fn, fails, inp):
+    """Coq literal of a recorded case; a non-finite value (NaN / inf never enter Q) in the candidates, radii, distances or the
+    result is a property failure with that input, not a crash of the check"""
+    try:
+        return fn()
+    except (ValueError, OverflowError, TypeError) as e:
+        fails.append({"what": f"non-finite or non-real value among the candidate droplets / distances / results ({type(e).__name__}: {e})", "input": inp})
+        return None
+
+
 def grid_lit(grid):
     axes = []
     for (lo, hi), n, per in zip(grid.axes_bounds, grid.shape, grid.periodic):
@@ -388,3 +398,378 @@ def oracle_cyl(grid, mask, em, cands, kept):
                                      dist(cands[k][0], cands[j][0]) < cands[k][2] + cands[j][2] + 1e-12 for j in range(len(cands))):
             out.append(("left out", f"component at z={cands[k][0]} left out although it overlaps no component at least as large"))
     return out
+
+
+# ================================================================================================
+# input dimension 8 (notes/input_dimensions.md): state kept between calls.
+# An input ("member") is a JSON-able dict: family, bounds, shape, periodic and either "mask" (flat 0/1 image, C02) or
+# "droplets" ([[position vector, radius], ...] rendered through Emulsion.get_phasefield, C01).  A group is a dict
+# {"kind", "family", "members": [m0, m1, extras...]}: m0 and m1 share every aggregate a cache could plausibly be keyed on
+# (shape, number of cells, dtype, number of image cells / droplets, radii, total volume ...) but differ otherwise; the extras
+# are further images on the grid of m0.  The reference for "right" is the evaluation with fresh objects FIRST in a fresh
+# interpreter (two reference interpreters run concurrently with the rest of the check: process j evaluates member j of
+# every group before anything else of that group).  In the checking process the objects (grid, fields, emulsion) of a
+# group are built once and reused for the whole schedule.
+# ================================================================================================
+SEQ_LOCATORS = ("locate_droplets", "locate_droplets_in_mask")
+
+
+def seq_grid_key(spec):
+    import json
+    return json.dumps([spec["family"], spec["bounds"], spec["shape"], spec["periodic"]])
+
+
+def seq_build_grid(spec):
+    import pde
+    fam = spec["family"]
+    if fam == "cartesian":
+        return pde.CartesianGrid([tuple(b) for b in spec["bounds"]], list(spec["shape"]), periodic=list(spec["periodic"]))
+    if fam == "cylindrical":
+        return pde.CylindricalSymGrid(spec["bounds"][0][1], tuple(spec["bounds"][1]), list(spec["shape"]),
+                                      periodic_z=bool(spec["periodic"][1]))
+    return getattr(pde, fam)(tuple(spec["bounds"][0]), int(spec["shape"][0]))
+
+
+def seq_make_emulsion(spec):
+    from droplets import Emulsion, SphericalDroplet
+    return Emulsion([SphericalDroplet(np.array(c, float), float(r)) for c, r in spec["droplets"]])
+
+
+def seq_render(grid, spec, em0=None):
+    """the float64 image handed to locate_droplets: the rendered emulsion or the given 0/1 image"""
+    from pde import ScalarField
+    if "droplets" in spec:
+        return (em0 if em0 is not None else seq_make_emulsion(spec)).get_phasefield(grid)
+    return ScalarField(grid, np.array(spec["mask"], bool).reshape(grid.shape).astype(float))
+
+
+def seq_locate(field, maskf):
+    """both locators -> ({locator: key or 'raised ...'}, {locator: emulsion or None})"""
+    from droplets.image_analysis import locate_droplets, locate_droplets_in_mask
+    keys, ems = {}, {}
+    for name, fn, arg in (("locate_droplets", locate_droplets, field), ("locate_droplets_in_mask", locate_droplets_in_mask, maskf)):
+        try:
+            em = fn(arg)
+            keys[name], ems[name] = emulsion_key(em), em
+        except Exception as e:  # noqa
+            keys[name], ems[name] = f"raised {type(e).__name__}: {e}", None
+        if isinstance(keys[name], list):
+            keys[name] = [list(k) for k in keys[name]]
+    return keys, ems
+
+
+def seq_image_digest(field):
+    import hashlib
+    return hashlib.sha1(np.ascontiguousarray(field.data).tobytes()).hexdigest() + f" {field.data.dtype} {field.data.shape}"
+
+
+def seq_eval_fresh(spec):
+    """evaluation of one input with fresh objects (what the reference interpreters do)"""
+    from pde import ScalarField
+    grid = seq_build_grid(spec)
+    try:
+        field = seq_render(grid, spec)
+    except Exception as e:  # noqa
+        return {"image": f"raised {type(e).__name__}: {e}"}
+    maskf = ScalarField(grid, field.data > 0.5, dtype=bool)
+    keys, _ = seq_locate(field, maskf)
+    return {"image": seq_image_digest(field), **keys}
+
+
+def seq_failing_calls(field):
+    """calls that raise documented errors, also with an object of the group; the state afterwards must not matter"""
+    from droplets.image_analysis import locate_droplets, locate_droplets_in_mask
+    out = []
+    for fn in (lambda: locate_droplets("not a field"), lambda: locate_droplets(field, threshold="no such rule"),
+               lambda: locate_droplets(field, modes=1, refine=False) if field.grid.dim == 1 else locate_droplets(field.data),
+               lambda: locate_droplets_in_mask(field.data)):
+        try:
+            fn()
+            out.append("no exception")
+        except Exception as e:  # noqa
+            out.append(type(e).__name__)
+    return out
+
+
+def seq_start_references(groups):
+    import json
+    import subprocess
+    import sys
+    procs = []
+    for j in range(2):
+        order = [[g_, j] for g_ in range(len(groups))] + [[g_, 1 - j] for g_ in range(len(groups))]
+        order += [[g_, k] for g_, grp in enumerate(groups) for k in range(2, len(grp["members"]))]
+        p = subprocess.Popen([sys.executable, __file__], stdin=subprocess.PIPE, stdout=subprocess.PIPE,
+                             stderr=subprocess.DEVNULL, text=True)
+        p.stdin.write(json.dumps({"groups": groups, "order": order}))
+        p.stdin.close()
+        procs.append(p)
+    return procs
+
+
+def seq_collect_references(procs, groups):
+    """-> ({(group, member): result of the evaluation in the freshest state}, [(group, member, call, later, first)])"""
+    import json
+    outs = []
+    for p in procs:
+        txt = p.stdout.read()
+        p.wait()
+        outs.append(json.loads(txt) if p.returncode == 0 and txt.strip() else None)
+    if any(o is None for o in outs):
+        raise RuntimeError("reference interpreter failed")
+    first, later = {}, {}
+    for g_, grp in enumerate(groups):
+        for k in range(len(grp["members"])):
+            j = k if k < 2 else 0
+            first[(g_, k)] = outs[j][f"{g_},{k}"]
+            later[(g_, k)] = outs[1 - j][f"{g_},{k}"]
+    diffs = [(key[0], key[1], call, v, first[key].get(call)) for key, r in later.items() for call, v in r.items()
+             if v != first[key].get(call)]
+    return first, diffs
+
+
+def grid_arrays(grid):
+    """the geometry a locator reads from the grid, incl. the arrays of its cached properties (copies)"""
+    out = {}
+    for name in ("cell_volumes", "cell_coords", "axes_coords", "cell_volume_data", "discretization", "axes_bounds", "shape",
+                 "periodic", "volume", "typical_discretization"):
+        try:
+            v = getattr(grid, name)
+        except Exception as e:  # noqa
+            v = f"raised {type(e).__name__}"
+        out[name] = _deep_copy_arrays(v)
+    try:
+        out["state"] = _deep_copy_arrays(grid.state)
+    except Exception as e:  # noqa
+        out["state"] = f"raised {type(e).__name__}"
+    return out
+
+
+def _deep_copy_arrays(v):
+    if isinstance(v, np.ndarray):
+        return v.copy()
+    if isinstance(v, (tuple, list)):
+        return tuple(_deep_copy_arrays(x) for x in v)
+    if isinstance(v, dict):
+        return {k: _deep_copy_arrays(x) for k, x in v.items()}
+    return v
+
+
+def _deep_equal(a, b):
+    if isinstance(a, np.ndarray) or isinstance(b, np.ndarray):
+        a, b = np.asarray(a), np.asarray(b)
+        return a.shape == b.shape and a.dtype == b.dtype and bool(np.array_equal(a, b, equal_nan=(a.dtype.kind == "f")))
+    if isinstance(a, (tuple, list)) and isinstance(b, (tuple, list)):
+        return len(a) == len(b) and all(_deep_equal(x, y) for x, y in zip(a, b))
+    if isinstance(a, dict) and isinstance(b, dict):
+        return a.keys() == b.keys() and all(_deep_equal(a[k], b[k]) for k in a)
+    return type(a) is type(b) and a == b
+
+
+def changed_grid_arrays(grid, want):
+    return [name for name, v in grid_arrays(grid).items() if not _deep_equal(v, want[name])]
+
+
+def _arrays_of(v):
+    if isinstance(v, np.ndarray):
+        yield v
+    elif isinstance(v, (tuple, list)):
+        for x in v:
+            yield from _arrays_of(x)
+
+
+def seq_run_group(ctx, rng, grp, first, judge, oracle=None, quiet_counts=False):
+    """The schedule of one group on REUSED objects.  judge(member index, step, what) records a failure.
+    oracle(spec, grid, field, emulsions) -> failure text or None is the property oracle (state-free reference)."""
+    from pde import ScalarField
+    members = grp["members"]
+    count = (lambda *a: None) if quiet_counts else ctx.count
+    grids, twins, objs = {}, {}, {}
+    pretouch = rng.random() < 0.5   # read the grid's cached arrays before the first call (then a locator sees them cached)
+    count("sequence_grid_cached_arrays_read_before_first_call", pretouch)
+
+    def get_objects(k):
+        spec = members[k]
+        gk = seq_grid_key(spec)
+        if gk not in grids:
+            grids[gk] = seq_build_grid(spec)
+            twins[gk] = grid_arrays(seq_build_grid(spec))   # a fresh equal grid that no locator ever sees
+            if pretouch:
+                grid_arrays(grids[gk])
+        if k not in objs:
+            grid = grids[gk]
+            em0 = seq_make_emulsion(spec) if "droplets" in spec else None
+            field = seq_render(grid, spec, em0)
+            maskf = ScalarField(grid, field.data > 0.5, dtype=bool)
+            objs[k] = {"grid": grid, "gk": gk, "em0": em0, "field": field, "maskf": maskf, "field0": field.data.copy(),
+                       "mask0": maskf.data.copy(), "em0_data": None if em0 is None else [d.data.copy() for d in em0]}
+        return objs[k]
+
+    order = [0, 1] if rng.random() < 0.5 else [1, 0]
+    schedule = [(order[0], "first call"), (order[0], "same call again on the same objects"),
+                (order[1], "after the input that shares its aggregates"), (order[0], "repeated after the other input"),
+                (None, "calls that raise"), (order[1], "repeated after failing calls")]
+    schedule += [(k, "further image on the reused grid") for k in range(2, len(members))]
+    schedule += [(order[0], "after many calls on the reused grid")]
+    alive = []   # every output stays alive until the end of the group: (member, step, locator, emulsion, key at creation)
+    for k, step in schedule:
+        if k is None:
+            o = get_objects(order[0])
+            count("sequence_failing_calls", ",".join(seq_failing_calls(o["field"])))
+            continue
+        spec = members[k]
+        o = get_objects(k)
+        if o["em0"] is not None and step != "first call":
+            # render again from the reused Emulsion object onto the reused grid
+            try:
+                again = seq_render(o["grid"], spec, o["em0"])
+                if not np.array_equal(again.data, o["field0"]):
+                    judge(k, step, "the image rendered from the same emulsion on the same grid object differs from the first rendering")
+                o["field"] = again
+            except Exception as e:  # noqa
+                judge(k, step, f"rendering raised {type(e).__name__}: {e}")
+        keys, ems = seq_locate(o["field"], o["maskf"])
+        ctx.case([grp["family"], "sequence", grp["kind"], step, k, spec], nontrivial=True)
+        count("sequence_step", step)
+        ref = first[k]
+        if seq_image_digest(o["field"]) != ref.get("image"):
+            judge(k, step, f"rendered image differs from the one rendered with fresh objects in a fresh interpreter")
+        for name in SEQ_LOCATORS:
+            if keys[name] != ref.get(name):
+                judge(k, step, f"{name}: result {_short(keys[name])} differs from the result with fresh objects in a fresh interpreter "
+                               f"{_short(ref.get(name))}")
+            if ems[name] is not None:
+                alive.append((k, step, name, ems[name], keys[name]))
+        # arguments unchanged
+        if o["field"].data.dtype != o["field0"].dtype or not np.array_equal(o["field"].data, o["field0"]):
+            judge(k, step, "the data of the field passed to locate_droplets was modified")
+        if o["maskf"].data.dtype != o["mask0"].dtype or not np.array_equal(o["maskf"].data, o["mask0"]):
+            judge(k, step, "the data of the mask passed to locate_droplets_in_mask was modified")
+        if o["em0"] is not None and not all(_deep_equal(d.data, d0) for d, d0 in zip(o["em0"], o["em0_data"])):
+            judge(k, step, "the droplets of the rendered emulsion were modified")
+        ch = changed_grid_arrays(o["grid"], twins[o["gk"]])
+        if ch:
+            judge(k, step, f"arrays of the grid object differ from those of a fresh equal grid after the call: {ch}")
+        if oracle is not None and ems["locate_droplets"] is not None:
+            f = oracle(spec, o["grid"], o["field"], ems)
+            if f:
+                judge(k, step, f"property oracle: {f}")
+    # ---- outputs kept alive together
+    count("sequence_outputs_kept_alive_together", len(alive) if len(alive) < 10 else ">=10")
+    for k, step, name, em, key0 in alive:
+        now = emulsion_key(em)
+        now = [list(x) for x in now] if isinstance(now, list) else now
+        if now != key0:
+            judge(k, step, f"{name}: an emulsion returned earlier changed while later calls were made")
+    bufs = []
+    for idx, (k, step, name, em, key0) in enumerate(alive):
+        for d in em:
+            bufs.append((idx, d.data))
+    watched = [a for o in objs.values() for a in (o["field"].data, o["maskf"].data)]
+    watched += [a for g in grids.values() for v in (g.cell_volumes, g.cell_coords, g.axes_coords, g.cell_volume_data) for a in _arrays_of(v)]
+    shared = False
+    for i, (ia, a) in enumerate(bufs):
+        if any(np.shares_memory(a, w) for w in watched):
+            judge(alive[ia][0], alive[ia][1], f"{alive[ia][2]}: a returned droplet shares memory with an argument or a cached array of the grid")
+            shared = True
+        for ib, b in bufs[i + 1:]:
+            if ia != ib and np.shares_memory(a, b):
+                judge(alive[ia][0], alive[ia][1], f"{alive[ia][2]}: droplets of two emulsions returned by different calls share memory")
+                shared = True
+                break
+        if shared:
+            break
+    # mutate every droplet of the first non-empty output in place; nothing else may change
+    victim = next((i for i, a in enumerate(alive) if len(a[3]) > 0), None)
+    count("sequence_output_mutated_in_place", victim is not None)
+    if victim is not None:
+        for d in alive[victim][3]:
+            d.position += 1.25
+            d.radius = 3 * d.radius + 1
+        for i, (k, step, name, em, key0) in enumerate(alive):
+            if i == victim or em is alive[victim][3]:
+                if i != victim:
+                    judge(k, step, f"{name}: two calls returned the same Emulsion object")
+                continue
+            now = emulsion_key(em)
+            now = [list(x) for x in now] if isinstance(now, list) else now
+            if now != key0:
+                judge(k, step, f"{name}: modifying the droplets returned by another call changed this emulsion (shared droplets or buffers)")
+        k = alive[victim][0]
+        o = objs[k]
+        keys, _ = seq_locate(o["field"], o["maskf"])
+        count("sequence_step", "after modifying an earlier output in place")
+        for name in SEQ_LOCATORS:
+            if keys[name] != first[k].get(name):
+                judge(k, "after modifying an earlier output in place", f"{name}: result {_short(keys[name])} differs from the fresh reference {_short(first[k].get(name))}")
+        for gk, g in grids.items():
+            ch = changed_grid_arrays(g, twins[gk])
+            if ch:
+                judge(k, "after modifying an earlier output in place", f"arrays of the grid object changed: {ch}")
+
+
+def _short(key):
+    if isinstance(key, list):
+        return [[float.fromhex(x) for x in d] for d in key[:4]] + (["..."] if len(key) > 4 else [])
+    return key
+
+
+def sequence_oracle(ctx, rng, groups, procs, oracle=None):
+    """runs every group; returns failures [{"what", "input"}] (at most one per group and failure text)"""
+    fails = []
+    try:
+        first, diffs = seq_collect_references(procs, groups)
+    except Exception as e:  # noqa
+        ctx.broken.append(f"sequence oracle: reference interpreters unavailable ({type(e).__name__}: {e})")
+        return fails
+    seen = set()
+
+    def add(g_, k, step, what):
+        if (g_, what[:60]) in seen or sum(1 for s in seen if s[0] == g_) >= 2:
+            return
+        seen.add((g_, what[:60]))
+        fails.append({"what": f"sequence ({groups[g_]['kind']}; step: {step}; member {k}): {what}",
+                      "input": {"sequence": True, "group": groups[g_], "member": k, "step": step}})
+
+    for g_, k, call, later, fresh in diffs:
+        add(g_, k, "fresh interpreter: evaluated after the other inputs of the group", f"{call}: {_short(later)} instead of {_short(fresh)} (evaluated first)")
+    for g_, grp in enumerate(groups):
+        ctx.count("sequence_family", grp["family"])
+        ctx.count("sequence_group_kind", grp["kind"])
+        ctx.count("sequence_locators", "+".join(SEQ_LOCATORS))
+        try:
+            seq_run_group(ctx, rng, grp, {k: first[(g_, k)] for k in range(len(grp["members"]))},
+                          lambda k, step, what, g_=g_: add(g_, k, step, what), oracle)
+        except Exception as e:  # noqa
+            add(g_, 0, "schedule", f"raised {type(e).__name__}: {e}")
+    return fails
+
+
+def replay_sequence(inp, oracle=None):
+    """replay of a failing sequence input (fresh reference interpreters for this one group)"""
+    import random
+
+    class _Ctx:
+        broken = []
+
+        def count(self, *a, **k):
+            pass
+
+        def case(self, *a, **k):
+            pass
+    groups = [inp["group"]]
+    fails = sequence_oracle(_Ctx(), random.Random(0), groups, seq_start_references(groups), oracle)
+    fails += sequence_oracle(_Ctx(), random.Random(1), groups, seq_start_references(groups), oracle)
+    return fails[0]["what"] if fails else (_Ctx.broken[0] if _Ctx.broken else None)
+
+
+if __name__ == "__main__":  # reference interpreter of seq_start_references
+    import json
+    import sys
+    import warnings
+    warnings.simplefilter("ignore")
+    job = json.load(sys.stdin)
+    res = {}
+    for g_, k in job["order"]:
+        res[f"{g_},{k}"] = seq_eval_fresh(job["groups"][g_]["members"][k])
+    json.dump(res, sys.stdout)
